@@ -871,6 +871,30 @@ impl<'a> Session<'a> {
                 self.mark_script_change();
                 Res::Ok
             }
+            Op::InScriptThenRegular { utxo, wit } => {
+                need!(self.utxo_ok(*utxo) && self.wit_ok(wit));
+                let ut = &self.w.utxos[*utxo];
+                if !matches!(ut.addr.pay_cred(), Some(Cred::Key(_))) || ut.script_ref.is_some() {
+                    return Res::Skipped("correction history needs a key-owned UTxO");
+                }
+                let pw = match self.plutus_witness(&csl::RedeemerTag::new_spend(), wit) {
+                    Some(x) if self.is_plutus(wit) => x,
+                    _ => return Res::Skipped("not a plutus script"),
+                };
+                let input = self.w.input_of(ut);
+                let val = self.w.value(ut.coin, &ut.assets);
+                let full = self.w.utxo(*utxo);
+                let outpoint = self.w.outpoint(*utxo);
+                self.inb.add_plutus_script_input(&pw, &input, &val);
+                // the mistaken attachment is replaced at once: it is never live
+                self.h.attaches.push(Attach { op: idx, red: wit.red, purpose: Purpose::Spend(outpoint.0, outpoint.1), script: wit.script, live: false });
+                let inb = &mut self.inb;
+                g!(inb.add_regular_utxo(&full));
+                self.tx.set_inputs(&self.inb);
+                self.mark_value_change();
+                self.mark_script_change();
+                Res::Ok
+            }
             Op::InReqSigner(k) => {
                 self.inb.add_required_signer(&key(*k).hash);
                 self.tx.set_inputs(&self.inb);
